@@ -28,7 +28,7 @@ RULE = (
     "observer that raises is tolerated and counted, state must still be unchanged); each copy c: c == m, bytes equal, "
     "snapshot equal; after mutating a deep copy or an unpickled copy the original's bytes and snapshot are unchanged. "
     "Non-trivial = message with >=1 of {unknown fields, map of messages, present-but-empty nested message, unset "
-    "nested message that gets read} and >=2 observers before the copy."
+    "nested message that gets read} and >=2 observers before the copy. Plus in-place histories against tree models (vf/props/_prog.py): the original is not looked at between the steps, copies are mutated through lazily created members, the original is mutated in place between two copies / pickles, a fresh instance of every class must still be empty at the end."
 )
 ASSUMPTIONS = ["C14 claims purity, not totality: an observer raising is counted, not a violation",
                "mutating a *shallow* copy's containers may legitimately affect the original and is not generated"]
@@ -352,9 +352,23 @@ def targets(ctx):
         for obs in ("to_dict_defaults", "to_pydict_defaults"):
             yield {"msg": "Rec", "tree": {"i32": 1}, "source": "construct", "observers": [obs], "copies": [], "mut": 0}
 
-    from . import _seq
+    from . import _prog, _seq
+
+    def prog_ev(case):
+        found = _prog.run(c, case, observe)
+        steps = case["steps"]
+        fails = [Failure(cl.split("|")[0], f"prog|{cl}|{case['msg']}", f"case={case!r:.1200} :: {d}") for cl, d in found]
+        muts = [s_ for s_ in steps if s_["op"] == "mut"]
+        labs = [f"prog_msg:{case['msg']}", f"prog_steps:{len(steps)}"] + sorted({f"prog_op:{s_['op']}" for s_ in steps}) + \
+               (["prog:mut_on_copy"] if any(s_["on"] > 0 for s_ in muts) else []) + (["prog:mut_on_original"] if any(s_["on"] == 0 for s_ in muts) else []) + \
+               (["prog:empty_start"] if not case["tree"] else [])
+        return Eval(fails, nontrivial=bool(muts) and any(s_["op"] == "copy" for s_ in steps), labels=labs)
+
+    prog_strat = _prog.strategy(c, ["Holder"] * 4 + ["Box", "Mixed", "Rec", "Repeats", "Maps", "Oneofs", "Scalars"], OBSERVERS[:-2], RECURSIVE_TYPES)
 
     return [
+        Target("inplace_histories_vs_model", prog_ev, strategy=prog_strat, quick=500, thorough=6000, time_quick=60,
+               rule="programs of in-place mutations / copies / observers over an original that is not looked at in between; every object is compared with the tree model of its own history, and a fresh instance must stay empty; non-trivial = >=1 mutation and >=1 copy"),
         Target("observer_and_copy_histories", ev, strategy=strat(), quick=400, thorough=6000, time_quick=80),
         Target("dense_values_observed", ev, strategy=dense(), quick=150, thorough=2500, time_quick=60),
         Target("big_payload_copy_chains", ev, strategy=big(), quick=40, thorough=400),
